@@ -440,7 +440,7 @@ def ptrace_validate(ctx, cap=12000, chunk=3000, par=4):
     lines = []
     for fn in sorted(os.listdir(ctx.wd)):
         if fn.startswith("events_"):
-            lines += [l for l in open(os.path.join(ctx.wd, fn), errors="replace") if '"pev"' in l]
+            lines += [l for l in open(os.path.join(ctx.wd, fn), errors="replace") if '"pev"' in l and well_formed(l)]
     if len(lines) > cap:
         step = len(lines) / float(cap)
         lines = [lines[int(i * step)] for i in range(cap)]
@@ -464,6 +464,16 @@ def ptrace_validate(ctx, cap=12000, chunk=3000, par=4):
     tot["rejections"] = findings
     return tot
 
+def well_formed(line):
+    """a harness process killed in the middle of a write (hang, abort) leaves a truncated last line behind"""
+    if not line.endswith("\n"):
+        return False
+    try:
+        json.loads(line)
+        return True
+    except Exception:
+        return False
+
 def concrete_of(chars):
     m = {"PI_SYM": "π", "LFLOOR": "⌊", "RFLOOR": "⌋", "LCEIL": "⌈", "RCEIL": "⌉", "DEG": "°", "WS": " ", "OTHER": "#"}
     sup = "⁰¹²³⁴⁵⁶⁷⁸⁹"
@@ -482,13 +492,20 @@ def trace_validate(ctx, event_files, cap=40000, chunk=4000, par=8, reset_between
         p = fn if os.path.isabs(fn) else os.path.join(ctx.wd, fn)
         if not os.path.exists(p):
             continue
-        ls = [l for l in open(p, errors="replace") if l.strip()]
+        ls = [l for l in open(p, errors="replace") if l.strip() and well_formed(l)]
         if ls and reset_between_files and lines:
             lines.append('{"ev":"Reset"}\n')
         lines += ls
     if len(lines) > cap:
-        step = len(lines) / float(cap)
-        lines = [lines[int(i * step)] for i in range(cap)]
+        # calls the harness did not judge itself (near-miss names, deep shapes, mutations) are decided only here: they go first
+        prio = [l for l in lines if '"v":"unclaimed"' in l and not l.startswith('{"ev":"Reset"')]
+        rest = [l for l in lines if not ('"v":"unclaimed"' in l and not l.startswith('{"ev":"Reset"'))]
+        if len(prio) > cap // 2:
+            step = len(prio) / float(cap // 2)
+            prio = [prio[int(i * step)] for i in range(cap // 2)]
+        room = cap - len(prio)
+        step = max(1.0, len(rest) / float(room))
+        lines = prio + [rest[int(i * step)] for i in range(min(room, len(rest)))]
     if not lines:
         return {"events": 0, "rejections": [], "totals": {}}
     if ctx.prop == "C16":
@@ -550,7 +567,9 @@ def c01(ctx):
                          compose={"quick": (3, 3), "thorough": (4, 4), "chains": {"quick": (4, 14, 100), "thorough": (150, 20, 110)}})
 
 def c03(ctx):
-    return grammar_check(ctx, {"ok_on_reject", "err_on_defined"}, {"*": 5}, {"*": 6, "f64": 7}, {"assignments": 2, "event_every": 100, "event_cap": 2000, "nontrivial_min_ops": 1, "reject_suffixes": 2, "parser_events": True},
+    nm = 700 if ctx.quick() else 12000
+    near = lambda profile: ([base_job(ctx, "nearmiss", "%s_nearmiss_%s" % (profile, e), profile, e=e, n=nm, seed=ctx.seed, event_every=1, event_cap=nm) for e in EVALS] if profile == "debug" else [])
+    return grammar_check(ctx, {"ok_on_reject", "err_on_defined"}, {"*": 5}, {"*": 6, "f64": 7}, extra_jobs=near, opts= {"assignments": 2, "event_every": 100, "event_cap": 2000, "nontrivial_min_ops": 1, "reject_suffixes": 2, "parser_events": True},
                          lexer={"alphabets": ["lit", "kw1", "kw2", "kw3", "ops", "sup"], "k_quick": 3, "k_thorough": 5})
 
 def c04(ctx):
